@@ -608,9 +608,9 @@ func init() {
 		prop := prop
 		register(prop, "compression-matrix", false, func(c *Ctx) {
 			// (x-gzip, compress: registered codings the server does not implement)
-			accepts := []string{"", "gzip", "deflate", "br", "zstd", "gzip, deflate", "br;q=1.0, gzip;q=0.8", "identity", "xgzipx", "gzip;q=0", "GZIP", "deflate;q=0.5, *;q=0", "x-gzip", "compress, x-gzip", "x-gzip, gzip", "*", "gzip;q=0, *", "br, gzip;q=0, *;q=0.5", "*;q=0, zstd"}
+			accepts := []string{"", "gzip", "deflate", "br", "zstd", "gzip, deflate", "br;q=1.0, gzip;q=0.8", "identity", "xgzipx", "gzip;q=0", "GZIP", "deflate;q=0.5, *;q=0", "x-gzip", "compress, x-gzip", "x-gzip, gzip", "*", "gzip;q=0, *", "br, gzip;q=0, *;q=0.5", "*;q=0, zstd", "gzip;q=0.0", "gzip;q=0.000, deflate;q=0.00, br;q=0.", "gzip;q=0.0, *"}
 			if !c.Thorough() {
-				accepts = []string{"", "gzip", "deflate", "br", "zstd", "gzip, deflate", "identity", "xgzipx", "gzip;q=0", "x-gzip", "compress, x-gzip", "gzip;q=0, *", "br, gzip;q=0, *;q=0.5"}
+				accepts = []string{"", "gzip", "deflate", "br", "zstd", "gzip, deflate", "identity", "xgzipx", "gzip;q=0", "x-gzip", "compress, x-gzip", "gzip;q=0, *", "br, gzip;q=0, *;q=0.5", "gzip;q=0.0", "gzip;q=0.000, deflate;q=0.00, br;q=0."}
 			}
 			cars := []outCarrier{{"polling", 4, false}, {"polling", 3, false}, {"polling", 3, true}, {"jsonp", 4, false}, {"jsonp", 3, true}}
 			seqs := [][]sendSpec{
